@@ -11,6 +11,7 @@
    C19: a case is a produce request the harness sent through the real handler of a
    broker whose PartitionLeaseManager shares an etcd with a second broker; see
    [check_pcase]. *)
+From Coq Require Import String.
 From KS Require Import lib.Base lib.Strings lib.EtcdKV model.Lease.
 Open Scope Z_scope.
 
@@ -101,7 +102,7 @@ Record pcase := mkPCase {
 
 Definition broker1 : bytes := [49].
 Definition broker2 : bytes := [50].
-Definition partition_prefix : bytes := codes "/kafscale/partition-leases".
+Definition partition_prefix : bytes := codes "/kafscale/partition-leases"%string.
 
 Definition check_pcase (k : pcase) : bool :=
   let cfg := mkConfig partition_prefix true in
